@@ -424,7 +424,7 @@ SUBCHECKS = [
     Sub('identity', gen_identity, ev_identity, chunk=1, floor=100, guard=True, envs=1),
     Sub('wrappers', gen_wrap, ev_wrap, chunk=1, floor=200, guard=True, envs=1),
     Sub('covariance', gen_cov, ev_cov, chunk=1, floor=50, guard=True, envs=1),
-    Sub('threads', _tg, _te, chunk=1, floor=3, poison=False, fresh=True, timeout=3600),
+    Sub('threads', _tg, _te, chunk=1, floor=3, poison=False, fresh=True, timeout=7200),
     Sub('callforms', *_cf.make('C07', 'transform'), chunk=1, floor=1, guard=True),
     Sub('interpreter', *_ip.make('C07', 'transform'), chunk=1, floor=5, poison=False),
 ]
